@@ -141,6 +141,8 @@ def gamma(c, a, b):
         return b
     if a == b:
         return a
+    if isinstance(c, tuple) and c and c[0] == "not":
+        return gamma(c[1], b, a)     # canonical form: the condition is never a negation (boolean, so NaN-safe)
     if isinstance(a, Obj) and isinstance(b, Obj) and a.type == b.type and a.f.keys() == b.f.keys():
         return Obj(a.type, {k: gamma(c, a.f[k], b.f[k]) for k in a.f})
     if isinstance(a, Arr) and isinstance(b, Arr) and len(a.items) == len(b.items):
@@ -419,7 +421,7 @@ class Evaluator:
             if f["kind"] == "ctor":
                 self.run_inits(f, frame)
             ret_t = self.F.T(f["ret"])
-            r = self.exec_block_list([f["body"]], frame)
+            r = self.exec_block_list([f["body"]], frame, top=True)
             if r is _FALL:
                 r = None
             return r
@@ -503,8 +505,9 @@ class Evaluator:
         return self.load(x) if isinstance(x, LV) else x
 
     # ------------------------------------------------------------------ statements
-    def exec_block_list(self, stmts, frame):
-        """Execute statements in order; on a symbolic `if`, fork the continuation and merge."""
+    def exec_block_list(self, stmts, frame, top=False):
+        """Execute statements in order; on a symbolic `if`, fork the continuation and merge.
+        `top`: the list runs to the end of the function body, so falling off its end is `return;`."""
         i = 0
         while i < len(stmts):
             s = stmts[i]
@@ -548,11 +551,11 @@ class Evaluator:
                 # fork
                 snap = dict(self.store)
                 snap_locals = dict(frame["locals"])
-                r1 = self.exec_block_list([s["then"]] + rest, frame)
+                r1 = self.exec_block_list([s["then"]] + rest, frame, top)
                 st1 = self.store
                 self.store = dict(snap)
                 frame["locals"] = dict(snap_locals)
-                r2 = self.exec_block_list(([s["else"]] if s.get("else") else []) + rest, frame)
+                r2 = self.exec_block_list(([s["else"]] if s.get("else") else []) + rest, frame, top)
                 st2 = self.store
                 merged = {}
                 for loc in set(st1) | set(st2):
@@ -564,6 +567,10 @@ class Evaluator:
                 self.store = merged
                 if r1 is _FALL and r2 is _FALL:
                     return _FALL
+                if top and (r1 is None or r2 is None) and (r1 is _FALL or r2 is _FALL):
+                    return None     # `return;` on one side, end of a void function on the other
+                if r1 is None and r2 is None:
+                    return None
                 if r1 is _FALL or r2 is _FALL:
                     raise Inconclusive("branch falls through on one side only in " + frame["f"]["name"])
                 if isinstance(r1, LV) or isinstance(r2, LV):
@@ -1356,9 +1363,14 @@ class Evaluator:
             s = self.load(this_lv)
             if sn == "append" or sn == "operator+=":
                 v = val(0)
-                if isinstance(v, Str) and isinstance(s, Str):
+                if isinstance(v, int) and not isinstance(v, bool) and len(args) == 1 and isinstance(s, Str):
+                    v = Str([chr(v)])      # a single character
+                if isinstance(v, Str) and isinstance(s, Str) and len(args) == 1:
                     self.save(this_lv, Str(s.parts + v.parts))
                     return this_lv
+            if sn == "push_back" and isinstance(s, Str) and isinstance(val(0), int):
+                self.save(this_lv, Str(s.parts + (chr(val(0)),)))
+                return None
             if sn == "operator basic_string_view":
                 return s
             if sn in ("c_str", "data"):
@@ -1376,8 +1388,15 @@ class Evaluator:
             if sn == "operator=":
                 self.save(this_lv, val(0))
                 return this_lv
+            if f["kind"] == "method" and not f.get("const") and not f.get("static") and ptype.startswith("std::basic_string<"):
+                # a mutation of a string that is not modelled must not be silently dropped
+                raise Inconclusive("unmodelled mutating std::string member %s(%s)" % (sn, ", ".join(type(val(i)).__name__ for i in range(len(args)))))
         if sn == "operator+" and base == "std::operator+":
             a, b = val(0), val(1)
+            if isinstance(a, int) and not isinstance(a, bool):
+                a = Str([chr(a)])
+            if isinstance(b, int) and not isinstance(b, bool):
+                b = Str([chr(b)])
             if isinstance(a, Str) and isinstance(b, Str):
                 return Str(a.parts + b.parts)
         # ---- streams
@@ -1401,6 +1420,18 @@ class Evaluator:
         if ptype.startswith("std::basic_ostringstream<") and sn == "str":
             cur = self.load(this_lv)
             return Str([("stream", cur.f["out"].items)])
+        # ---- numeric_limits: exact constants of the IEEE formats (x87 extended for long double)
+        m = re.match(r"std::numeric_limits<(float|double|long double)>$", ptype)
+        if m and not args:
+            p_, emax = {"float": (24, 128), "double": (53, 1024), "long double": (64, 16384)}[m.group(1)]
+            two = Fraction(2)
+            table = {"epsilon": two ** (1 - p_), "min": two ** (2 - emax), "denorm_min": two ** (3 - emax - p_),
+                     "max": (2 - two ** (1 - p_)) * two ** (emax - 1), "lowest": -(2 - two ** (1 - p_)) * two ** (emax - 1),
+                     "round_error": Fraction(1, 2)}
+            if sn in table:
+                return C(table[sn])
+            if sn in ("infinity", "quiet_NaN", "signaling_NaN"):
+                return ("fn", "numeric_limits::" + sn)
         # ---- hash
         if ptype.startswith("std::hash<") and sn == "operator()":
             return ("fn", "hash<%s>" % ptype[len("std::hash<"):-1], val(0))
